@@ -133,6 +133,8 @@ type verifC30Conf struct {
 var verifC30Formats = []string{
 	"recordings/%path/%s", "recordings/%path/%Y-%m-%d_%H-%M-%S-%f", "rec2/%path_%s", "/tmp/vc30t/abs/%path/%s",
 	"./recordings/%path/%s", "recordings/%path/%path_%s", "%path/%s", "recordings/%path/%s-%f", "rec.d/x(1)/%path/%Y%m%d-%H%M%S",
+	// file names whose lexical order is not the chronological one (day first, time first)
+	"recordings/%path/%d-%m-%Y_%H-%M-%S-%f", "recordings/%path/%H-%M-%S_%Y-%m-%d", "recordings/%path/%S%M%H%d%m%Y",
 }
 
 var verifC30Keys = []struct {
@@ -310,6 +312,33 @@ func verifC30Gen(r *verifutil.Rand, i int, thorough bool) []string {
 			}
 		case 6:
 			addFile(filepath.Join(filepath.Dir(filepath.Dir(lastSeg)), filepath.Base(lastSeg)))
+		}
+	}
+	// one directory holding fresh and expired segments of the same path, days/weeks apart: whatever order the
+	// directory is walked in, every expired one must go and every fresh one must stay
+	if r.Chance(2, 3) {
+		c := confs[r.Intn(len(confs))]
+		name := verifC30Names[r.Intn(len(verifC30Names))]
+		if !c.re {
+			name = c.key
+		}
+		del := c.delUs
+		if del == 0 {
+			del = 3600e6
+		}
+		for k := 2 + r.Intn(4); k > 0; k-- {
+			us := nowUs - del
+			if r.Bool() {
+				us += int64(1+r.Intn(40*86400)) * 1e6 // fresh (possibly in the future)
+				if us > nowUs+86400e6 {
+					us = nowUs - del + int64(1+r.Intn(int(del/1e6)+1))*1e6
+				}
+			} else {
+				us -= int64(1+r.Intn(40*86400)) * 1e6 // expired, up to 40 days
+			}
+			t := time.UnixMicro(us).In(time.UTC)
+			verifC30AddTime(cal, t)
+			addFile(verifC30Abs(recordstore.Path{Start: t}.Encode(strings.ReplaceAll(c.format, "%path", name)) + ".mp4"))
 		}
 	}
 	addFile(filepath.Join(verifC30Root, "canary.mp4"))
